@@ -46,7 +46,7 @@ def Listed (proxies : List String) (remoteAddr : String) : Prop :=
 def peerIP (r : Req) : String := ipFromHostPort r.remoteAddr
 
 def actualView (r : Req) : View :=
-  { method := r.method, scheme := proto r, host := r.host, rawPath := r.escPath, query := r.rawQuery,
+  { method := r.method, scheme := proto r, host := r.host, rawPath := r.path, query := r.rawQuery,
     ips := [peerIP r] }
 
 /-- the `Forwarded` element describing the connection to heimdall itself -/
@@ -74,9 +74,7 @@ def nonFamily (wire : Headers) : Headers := wire.filter fun kv => !isFamilyName 
 
 /-! ## the view the property demands -/
 
-def specUri (parse : UriParse) (wire : Headers) : String × String :=
-  let v := firstCI wire "X-Forwarded-Uri"
-  if v = "" then ("", "") else (parse v).getD ("", "")
+def specUri (parse : UriParse) (wire : Headers) : String × String := uriOffer parse (firstCI wire "X-Forwarded-Uri")
 
 /-- client addresses announced by the peer: `Forwarded` wins over `X-Forwarded-For` -/
 def specAnnounced (wire : Headers) : List String :=
@@ -91,7 +89,7 @@ def overriddenView (parse : UriParse) (r : Req) : View :=
   { method  := orElse (firstCI r.wire "X-Forwarded-Method") r.method
     scheme  := orElse (firstCI r.wire "X-Forwarded-Proto") (proto r)
     host    := orElse (firstCI r.wire "X-Forwarded-Host") r.host
-    rawPath := orElse (specUri parse r.wire).1 r.escPath
+    rawPath := orElse (specUri parse r.wire).1 r.path
     query   := orElse (specUri parse r.wire).2 r.rawQuery
     ips     := specAnnounced r.wire ++ [peerIP r] }
 
